@@ -470,7 +470,7 @@ def main(tier, seed, only=None):
                     "max_cpu_s": round(max_cpu[0], 3), "max_rss_growth_kb": max_rss[0],
                     "fault_runs": stats["b_units"], "faults_fired": stats["b_fired"],
                     "fault_problems": stats["b_problems"],
-                    "distinct_nontrivial": stats["b_fired"] + stats["a_changed"]})
+                    "distinct_nontrivial": stats["b_fired"] + stats["a_changed"] + stats.get("c_failed_naturally", 0)})
     guards = {}
     if not only or only == "b":
         guards["faults_fired"] = stats["b_fired"]
